@@ -9,6 +9,7 @@
 #define MAXL 20000
 #define MAXT 8
 #define MAXS 4096
+static char fresh_out[16];
 static char* lines[MAXL]; static char* outs[MAXL]; static int ltid[MAXL]; static size_t nlines;
 
 typedef struct { void* scope; void* first_node; int live; uint8_t* blk[8]; size_t blkn[8]; int nb; } S;
@@ -88,9 +89,13 @@ static void* run_thread(void* arg)
             free(e);
         } else if (n >= 3 && !strcmp(tk[2], "last")) {
             static const char fb;                     /* fallback marker */
-            const GPAllocator* l = gp_last_scope((const GPAllocator*)&fb);
-            if (l == (const GPAllocator*)&fb) strcpy(out, "fallback");
+            /* "last null": the fallback the caller passes is NULL (legitimately returned when no scope is live) */
+            const GPAllocator* given = n >= 4 && !strcmp(tk[3], "null") ? NULL : (const GPAllocator*)&fb;
+            const GPAllocator* l = gp_last_scope(given);
+            if (l == given) strcpy(out, "fallback");
             else { strcpy(out, "GARBAGE"); for (size_t i = 0; i < t->ns; i++) if (t->sc[i].live && t->sc[i].scope == l) snprintf(out, sizeof out, "s%zu", i); }
+        } else if (n >= 3 && !strcmp(tk[2], "fresh")) {
+            strcpy(out, fresh_out);                   /* what gp_last_scope said before the process had begun any scope */
         } else if (n >= 3 && !strcmp(tk[2], "exit")) {
             /* output is filled in after the thread has exited (TLS destructors ran) */
             t->evn = 0; if (t->ev) t->ev[0] = 0;
@@ -106,6 +111,12 @@ static void* run_thread(void* arg)
 int main(void)
 {
     setvbuf(stdout, NULL, _IOFBF, 1 << 16);
+    {   /* depth 0 in a process that has not begun a scope yet but has used other per-thread state of the library */
+        static const char fb;
+        (void)gp_mem_alloc((GPAllocator*)gp_scratch_arena(), 8);
+        const GPAllocator* l = gp_last_scope((const GPAllocator*)&fb);
+        strcpy(fresh_out, l == (const GPAllocator*)&fb ? "fallback" : "GARBAGE");
+    }
     gp_heap = &hooked;
     while (vp_next()) {
         nlines = 0;
